@@ -901,6 +901,11 @@ class TenSym(PySym):
                     try:
                         sg = self.sign(x - y)
                     except Unsupported:
+                        if (getattr(self, "sampling", False) or getattr(self, "moderate", False)) and isinstance(op, (ast.Lt, ast.LtE, ast.Gt, ast.GtE)):
+                            vx_, vy_ = sample_value(x), sample_value(y)
+                            if vx_ is not None and vy_ is not None:
+                                out.append(Rat(Poly.const(int({ast.Lt: vx_ < vy_, ast.LtE: vx_ <= vy_, ast.Gt: vx_ > vy_, ast.GtE: vx_ >= vy_}[type(op)]))))
+                                continue
                         if isinstance(op, (ast.Lt, ast.LtE, ast.Gt, ast.GtE, ast.Eq, ast.NotEq)) and sh != ():
                             # an element of a mask that depends on the values: an opaque truth value (deciding it - np.all, an index, an `if` - is what raises)
                             out.append(self.fn("cmp" + type(op).__name__, x, y))
@@ -1723,6 +1728,19 @@ class TenSym(PySym):
                 if all(rs_) or not any(rs_):
                     return rs_[0]       # decided on representative renderings of the formatted values (positive / negative / zero-or-small)
                 raise Unsupported("%s(%r, ..) depends on the value formatted: %r" % (cn, pat_, txt_))
+        if cn == "abs" and len(n.args) == 1 and cn not in self.env:
+            v_ = self.lift(A(0))
+            if isinstance(v_, int) and not isinstance(v_, bool):
+                return abs(v_)
+            if isinstance(v_, Rat):
+                c_ = v_.const_value()
+                if c_ is not None:
+                    r_ = abs(c_)
+                    return int(r_) if r_.denominator == 1 else Rat(Poly.const(r_))
+                return self.fn("abs", v_)
+            if isinstance(v_, Ten):
+                return self.elementwise(lambda x_: (Rat(Poly.const(abs(x_.const_value()))) if x_.const_value() is not None else self.fn("abs", x_)), v_)
+            raise Unsupported("abs of %s" % type(v_).__name__)
         if cn in ("chr", "ord") and len(n.args) == 1 and cn not in self.env:
             v_ = self.pyval(A(0))
             if cn == "chr" and isinstance(v_, int):
